@@ -39,7 +39,7 @@ def _main_model(fn):
 
 def r13a(model, ctx):
     R = "R-13a"
-    fn = model.func(f"{FIFO}::AsyncFIFO.elaborate")
+    fn = model.func_expanded(f"{FIFO}::AsyncFIFO.elaborate", depth=3, exclude=("_gray_encode", "_gray_decode", "_incr"))
     em = _main_model(fn)
     for cnt, strobe, side in (("produce_w_nxt", {"self.w_en", "self.w_rdy"}, "write"), ("consume_r_nxt", {"self.r_en", "self.r_rdy"}, "read")):
         a = em.assigns_to(cnt, "comb")
@@ -71,7 +71,7 @@ def r13a(model, ctx):
 
 def r13b(model, ctx):
     R = "R-13b"
-    fn = model.func(f"{FIFO}::AsyncFIFO.elaborate")
+    fn = model.func_expanded(f"{FIFO}::AsyncFIFO.elaborate", depth=3, exclude=("_gray_encode", "_gray_decode", "_incr"))
     em = _main_model(fn)
     for regs, dom, other in ((W_SIDE, "self._w_domain", "self._r_domain"), (R_SIDE, "self._r_domain", "self._w_domain")):
         for reg in regs:
@@ -131,7 +131,7 @@ def r13b(model, ctx):
     ctx.check(got == want, R, "AsyncFIFO:read-side-reset", "on r_rst: empty, read pointer := write pointer",
               f"AsyncFIFO: read-side reset handling deviates: {sorted(got ^ want)}", f"{FIFO}:{fn.lineno}")
     # buffered wrapper
-    fb = model.func(f"{FIFO}::AsyncFIFOBuffered.elaborate")
+    fb = model.func_expanded(f"{FIFO}::AsyncFIFOBuffered.elaborate", depth=3, exclude=("_gray_encode", "_gray_decode", "_incr"))
     eb = _main_model(fb)
     for reg in ("self.r_data", "self.r_rdy", "self.r_rst", "self.r_level"):
         asg = [a for a in eb.assigns if a.target_text == reg]
@@ -232,7 +232,7 @@ def r13c(model, ctx):
     R = "R-13c"
     n = 0
     for cls in ("AsyncFIFO",):
-        fn = model.func(f"{FIFO}::{cls}.elaborate")
+        fn = model.func_expanded(f"{FIFO}::{cls}.elaborate", depth=3, exclude=("_gray_encode", "_gray_decode", "_incr"))
         em = ElabModel(fn)
         bounds = _ctor_width_bounds(model, cls)
         # attributes usable after the `self.depth == 0` early return: only constructor paths with depth != 0
@@ -249,7 +249,14 @@ def r13c(model, ctx):
                 lb = lower_bound(call.args[0], attr_lb, None)
                 if lb is not None:
                     sig_lb[name] = lb
-        mod = model.mod(FIFO)
+        from ..engine.astutil import parent_map
+        _pm = parent_map(fn)
+
+        class _P:
+            @staticmethod
+            def parent(x):
+                return _pm.get(x)
+        mod = _P
         for node in ast.walk(fn):
             if isinstance(node, ast.Subscript) and isinstance(node.value, ast.Name) and node.value.id in sig_lb:
                 k = const_int(node.slice)
@@ -300,7 +307,7 @@ def r13d(model, ctx):
     ok = "if exact_depth and depth != 1 << depth_bits" in t and "raise ValueError" in t
     ctx.check(ok, R, "AsyncFIFO.__init__:exact_depth", "non power-of-two exact depths are refused",
               "exact_depth must refuse depths that are not powers of two", f"{FIFO}:{f.lineno}")
-    fn = model.func(f"{FIFO}::AsyncFIFO.elaborate")
+    fn = model.func_expanded(f"{FIFO}::AsyncFIFO.elaborate", depth=3, exclude=("_gray_encode", "_gray_decode", "_incr"))
     em = ElabModel(fn)
     ctrs = ["produce_w_bin", "produce_w_nxt", "consume_r_bin", "consume_r_nxt", "produce_w_gry", "produce_r_gry",
             "consume_r_gry", "consume_w_gry", "consume_w_bin", "produce_r_bin"]
@@ -373,7 +380,7 @@ def r13f(model, ctx):
     than the first write pointer can arrive through its synchroniser; while r_rst is high the read pointer is
     overwritten with the synchronised write pointer, which must then still be its initial value."""
     R = "R-13f"
-    fn = model.func(f"{FIFO}::AsyncFIFO.elaborate")
+    fn = model.func_expanded(f"{FIFO}::AsyncFIFO.elaborate", depth=3, exclude=("_gray_encode", "_gray_decode", "_incr"))
     em = _main_model(fn)
     subs = {s.name: s for s in em.submodules}
     need("rst_cdc" in subs and "produce_cdc" in subs and "consume_cdc" in subs, "AsyncFIFO: synchroniser submodules not found")
@@ -388,7 +395,7 @@ def r13f(model, ctx):
               f"AsyncFIFO: a pointer/reset crossing with fewer than 2 synchroniser stages (rst {k_rst}, produce {k_ptr}, consume "
               f"{k_back}) exposes a metastable pointer to the full/empty comparison", f"{FIFO}:{fn.lineno}")
     # the flops of the reset synchroniser power up asserted; those of the pointer synchronisers at the pointer's init (0)
-    fa = model.func(f"{CDC}::AsyncFFSynchronizer.elaborate")
+    fa = model.func_expanded(f"{CDC}::AsyncFFSynchronizer.elaborate", depth=3)
     fl = [n for n in ast.walk(fa) if isinstance(n, ast.ListComp) and isinstance(n.elt, ast.Call) and dotted(n.elt.func) == "Signal"]
     need(len(fl) == 1, "AsyncFFSynchronizer.elaborate: flop list not found")
     kw = {k.arg: unparse(k.value) for k in fl[0].elt.keywords}
@@ -396,7 +403,7 @@ def r13f(model, ctx):
     ctx.check(ok, R, "AsyncFFSynchronizer:flops", "self._stages flops, all powering up asserted",
               "AsyncFFSynchronizer must build self._stages flops that power up at 1 (output asserted until released synchronously)",
               f"{CDC}:{fa.lineno}")
-    ff = model.func(f"{CDC}::FFSynchronizer.elaborate")
+    ff = model.func_expanded(f"{CDC}::FFSynchronizer.elaborate", depth=3)
     fl = [n for n in ast.walk(ff) if isinstance(n, ast.ListComp) and isinstance(n.elt, ast.Call) and dotted(n.elt.func) == "Signal"]
     need(len(fl) == 1, "FFSynchronizer.elaborate: flop list not found")
     loops = [n for n in ff.body if isinstance(n, ast.For)]
